@@ -337,6 +337,53 @@ SubsetWant(whole, a) ==
       f2 == IF DropsEmpties(a.variant) THEN DropEmpty1(f1, Other(a.axis)) ELSE f1
   IN IF a.variant = "from_hdf5_nomd" THEN StripMd(f2) ELSE f2
 
+(************************ summaries and construction ***********************)
+SummaryValue(t, a) ==
+  CASE a.kind = "sum" -> IF a.axis = "whole" THEN <<Total(t)>> ELSE SumAxis(t, a.axis)
+    [] a.kind \in {"min", "max"} ->
+         IF a.axis = "whole"
+         THEN <<IF a.kind = "min" THEN MinSeq(NZVals(Flat(t))) ELSE MaxSeq(NZVals(Flat(t)))>>
+         ELSE [k \in 1..Len(Ids(t, a.axis)) |->
+                 IF a.kind = "min" THEN MinSeq(NZVals(Vec(t, a.axis, k))) ELSE MaxSeq(NZVals(Vec(t, a.axis, k)))]
+    [] a.kind = "nonzero_counts" ->
+         IF a.axis = "whole" THEN <<IF a.binary THEN R(Nnz(t)) ELSE Total(t)>>
+         ELSE [k \in 1..Len(Ids(t, a.axis)) |-> IF a.binary THEN R(NnzVec(Vec(t, a.axis, k))) ELSE VecSum(Vec(t, a.axis, k))]
+    [] a.kind = "density" -> DensityOf(t)
+    [] a.kind = "reduce" -> [k \in 1..Len(Ids(t, a.axis)) |-> ReduceVec(a.f, Vec(t, a.axis, k))]
+    [] a.kind = "stats" ->
+         LET ps == PerSample(t, a.binary) IN
+         [min |-> MinSeq(ps), max |-> MaxSeq(ps), median |-> MedianOf(ps), mean |-> MeanOf(ps),
+          counts |-> [j \in 1..Len(t.samp) |-> <<t.samp[j], ps[j]>>]]
+    [] a.kind = "cli_summarize" ->
+         LET u == IF a.observations THEN Transpose(t) ELSE t
+             ps == PerSample(u, a.qualitative)
+             order == SortSeq(IdxSeq(Len(u.samp)), LAMBDA x, y : Less(ps[x], ps[y]))
+         IN [num_samples |-> Len(t.samp), num_observations |-> Len(t.obs), total |-> Total(t), density |-> DensityOf(t),
+             min |-> MinSeq(ps), max |-> MaxSeq(ps), median |-> MedianOf(ps), mean |-> MeanOf(ps),
+             detail |-> [k \in 1..Len(order) |-> <<u.samp[order[k]], ps[order[k]]>>],
+             smd_keys |-> SetToSeq(AllKeys(t, "sample")), omd_keys |-> SetToSeq(AllKeys(t, "observation"))]
+    [] a.kind = "cli_table_ids" -> Ids(t, a.axis)
+    [] a.kind = "cli_head" -> LET w == HeadT(t, a.n, a.m) IN [obs |-> w.obs, samp |-> w.samp, mat |-> w.mat]
+    [] a.kind = "to_dataframe" -> [index |-> t.obs, columns |-> t.samp, mat |-> t.mat]
+    [] a.kind \in {"md_dataframe", "cli_export_metadata"} ->
+         LET ks == SetToSeq(ScalarKeys(t, a.axis)) IN
+         [index |-> Ids(t, a.axis), columns |-> ks,
+          rows |-> [k \in 1..Len(Ids(t, a.axis)) |-> [c \in 1..Len(ks) |->
+                      LET e == CHOOSE x \in RowAt(t, a.axis, k) : x[1] = ks[c] IN <<e[2], e[3]>>]]]
+    [] OTHER -> FALSE
+
+\* the table the adjacency / uc records describe (IDs in natural order)
+AdjModel(recs) ==
+  LET oo == NatSortedSet({recs[k][1] : k \in 1..Len(recs)})
+      so == NatSortedSet({recs[k][2] : k \in 1..Len(recs)})
+  IN [obs |-> oo, samp |-> so, mat |-> [i \in 1..Len(oo) |-> [j \in 1..Len(so) |-> RecSum(recs, oo[i], so[j])]],
+      omd |-> NoMd, smd |-> NoMd, type |-> "", tid |-> ""]
+UcModel(recs) ==
+  LET oo == NatSortedSet({recs[k][2] : k \in {x \in 1..Len(recs) : recs[x][1] \in {"H", "S", "L"}}})
+      so == NatSortedSet({recs[k][3] : k \in {x \in 1..Len(recs) : recs[x][1] \in {"H", "S"}}})
+  IN [obs |-> oo, samp |-> so, mat |-> [i \in 1..Len(oo) |-> [j \in 1..Len(so) |-> R(UcCount(recs, oo[i], so[j]))]],
+      omd |-> NoMd, smd |-> NoMd, type |-> "", tid |-> ""]
+
 (***************************** model events ******************************)
 NatSorted(ids) == SortSeq(ids, LAMBDA x, y : NatRank[x] < NatRank[y])
 SortF(f, ids) ==
@@ -462,9 +509,38 @@ ModelEvent(h, st) ==
                                          styles_agree |-> TRUE, hdr |-> ModelHdr])
              ELSE Ev(st, h, Put(h, st.res, Fresh(want)), "ok",
                      [wrote |-> "ok", whole_out |-> "ok", whole |-> Fresh(whole), styles_agree |-> TRUE, hdr |-> ModelHdr])
+     [] st.call = "summary" ->
+          IF SummaryDefined(pre, a) THEN Ev(st, h, h, "ok", [value |-> SummaryValue(pre, a)])
+          ELSE Ev(st, h, h, "error", [value |-> FALSE])
+     [] st.call = "construct" ->
+          IF IsEmptyTable(pre) \/ ~Expressible(a.form, pre)
+          THEN Ev(st, h, h, "error", [eq_ref |-> FALSE, eq_ref_rev |-> FALSE, skipped |-> FALSE])
+          ELSE Ev(st, h, Put(h, st.res, Fresh(pre)), "ok", [eq_ref |-> TRUE, eq_ref_rev |-> TRUE, skipped |-> FALSE])
+     [] st.call = "construct_bad" -> Ev(st, h, h, "table_error", [skipped |-> FALSE])
+     [] st.call = "from_adjacency" ->
+          IF a.records = <<>> THEN Ev(st, h, h, "error", [none |-> TRUE])
+          ELSE Ev(st, h, Put(h, st.res, Fresh(AdjModel(a.records))), "ok", [none |-> TRUE])
+     [] st.call = "parse_uc" ->
+          IF \A k \in 1..Len(a.records) : a.records[k][1] \notin {"H", "S"} THEN Ev(st, h, h, "error", [none |-> TRUE])
+          ELSE Ev(st, h, Put(h, st.res, Fresh(UcModel(a.records))), "ok", [none |-> TRUE])
      [] OTHER -> Ev(st, h, h, "error", [nothing |-> TRUE])
 
 (************************** argument alphabets ***************************)
+\* record multisets for the importers, over 2 x 2 IDs (repeated pairs, zero values, negative values)
+AdjRecordSets ==
+  {<<<<"o1", "s1", R(2)>>>>,
+   <<<<"o1", "s1", R(2)>>, <<"o1", "s1", R(3)>>>>,
+   <<<<"o1", "s1", R(2)>>, <<"o2", "s2", R(5)>>, <<"o1", "s1", R(1)>>, <<"o2", "s1", R(4)>>>>,
+   <<<<"o2", "s2", <<1, 2>>>>, <<"o1", "s2", R(3)>>, <<"o2", "s2", <<1, 2>>>>, <<"o2", "s2", R(1)>>>>,
+   <<<<"o1", "s1", R(0)>>, <<"o2", "s2", R(7)>>>>,
+   <<<<"o2", "s1", R(-1)>>, <<"o2", "s1", R(1)>>, <<"o1", "s2", R(2)>>>>}
+UcRecordSets ==
+  {<<<<"S", "o1", "s1">>>>,
+   <<<<"S", "o1", "s1">>, <<"H", "o1", "s1">>, <<"H", "o1", "s2">>>>,
+   <<<<"S", "o1", "s1">>, <<"L", "o2", "s2">>, <<"H", "o1", "s1">>, <<"S", "o2", "s2">>, <<"H", "o2", "s1">>, <<"H", "o2", "s1">>>>,
+   <<<<"L", "o2", "s1">>, <<"S", "o1", "s2">>, <<"N", "o1", "s1">>>>,
+   <<<<"H", "o2", "s2">>, <<"C", "o2", "s2">>, <<"H", "o2", "s2">>, <<"S", "o2", "s2">>>>}
+
 SubSeqsOf(ids) == {SelectSeq(ids, LAMBDA x : x \in S) : S \in SUBSET SeqSet(ids)}
 PermsOf(ids) == {[i \in 1..Len(ids) |-> ids[p[i]]] : p \in Permutations(1..Len(ids))}
 Forms == {"list", "rev", "set", "tuple", "array", "dictkeys"}
@@ -664,6 +740,37 @@ StepsFor(call, h, recv, res, full) ==
                                       "parse_table_json_lines", "cli_subset_hdf5", "cli_subset_json"}
                         ELSE {"from_hdf5", "parse_table_json"}),
                  s \in subs} : ax \in Axes}
+    [] call = "summary" ->
+         LET SA(kind, ax, bin, f, n, m, obsv, qual) ==
+               [kind |-> kind, axis |-> ax, binary |-> bin, f |-> f, n |-> n, m |-> m, observations |-> obsv,
+                qualitative |-> qual]
+         IN {St(call, recv, recv, SA(k, ax, b, "add", 1, 1, FALSE, FALSE)) :
+               k \in {"sum", "min", "max", "nonzero_counts"}, ax \in {"sample", "observation", "whole"}, b \in BOOLEAN}
+            \cup {St(call, recv, recv, SA("reduce", ax, FALSE, f, 1, 1, FALSE, FALSE)) : ax \in Axes, f \in {"add", "max"}}
+            \cup {St(call, recv, recv, SA("stats", "sample", b, "add", 1, 1, FALSE, FALSE)) : b \in BOOLEAN}
+            \cup {St(call, recv, recv, SA("density", "sample", FALSE, "add", 1, 1, FALSE, FALSE))}
+            \cup {St(call, recv, recv, SA("cli_summarize", "sample", FALSE, "add", 1, 1, o, q)) : o \in BOOLEAN, q \in BOOLEAN}
+            \cup {St(call, recv, recv, SA(k, ax, FALSE, "add", 1, 1, FALSE, FALSE)) :
+                    k \in {"cli_table_ids", "md_dataframe", "cli_export_metadata"}, ax \in Axes}
+            \cup {St(call, recv, recv, SA("cli_head", "sample", FALSE, "add", n, m, FALSE, FALSE)) :
+                    n \in (IF full THEN {1, 2, 5} ELSE {2}), m \in (IF full THEN {1, 2, 5} ELSE {1})}
+            \cup {St(call, recv, recv, SA("to_dataframe", "sample", b, "add", 1, 1, FALSE, FALSE)) : b \in BOOLEAN}
+    [] call = "construct" ->
+         {St(call, recv, res, [form |-> f]) :
+            f \in {"dense_ndarray", "dense_lists", "int_ndarray", "int_lists", "bool_ndarray", "triples", "triples_with_zeros",
+                   "coord_dict", "list_of_row_arrays", "list_of_row_dicts", "list_of_sparse_rows", "csr", "csc", "coo",
+                   "lil", "dok", "bsr", "csr_unsorted", "csc_unsorted", "csr_zeros", "coo_zeros", "coo_duplicates_zero"}}
+    [] call = "construct_bad" ->
+         {St(call, recv, res, [kind |-> k, form |-> f]) :
+            k \in {"dup_obs_adjacent", "dup_obs_apart", "dup_samp_adjacent", "dup_samp_apart", "too_few_obs", "too_many_obs",
+                   "too_few_samp", "too_many_samp", "md_short_obs", "md_long_obs", "md_short_samp", "md_long_samp",
+                   "md_string_entry", "md_list_entry", "md_zero_entry", "md_emptystring_entry"},
+            f \in (IF full THEN {"dense_ndarray", "triples", "csr", "list_of_row_arrays"} ELSE {"dense_ndarray"})}
+    [] call = "from_adjacency" ->
+         {St(call, recv, res, [records |-> r, header |-> hd, input |-> i]) :
+            r \in AdjRecordSets, hd \in BOOLEAN, i \in (IF full THEN {"lines", "text", "handle"} ELSE {"lines"})}
+    [] call = "parse_uc" ->
+         {St(call, recv, res, [records |-> r, comments |-> c]) : r \in UcRecordSets, c \in BOOLEAN}
     [] OTHER -> {}
 
 (****************************** the machine ******************************)
